@@ -12,7 +12,9 @@ import warnings
 import numpy as onp
 
 import autograd.numpy as anp
-from autograd import make_vjp, make_jvp, grad, deriv
+from autograd import make_vjp, make_jvp, grad, deriv, checkpoint
+from autograd.core import vspace
+from autograd.extend import defvjp_argnum, defvjp_argnums, defjvp_argnum, defjvp_argnums, def_linear
 from autograd.core import VJPNode, JVPNode
 from autograd.extend import primitive, defvjp, defjvp
 from autograd.tracer import register_notrace, trace_stack, isbox
@@ -46,8 +48,81 @@ defvjp(bomb, lambda ans, x: _boom)
 defjvp(bomb, lambda g, ans, x: _boom())
 
 
+def make_user(table, variant):
+    """The product primitive user(a1..an, scale=1) registered through one of the public extension APIs.
+    table[i] in {"rule", "zero", "missing"}.  Every API must give the same behaviour."""
+    n = len(table)
+
+    @primitive
+    def user(*a, scale=1.0):
+        r = scale
+        for x in a:
+            r = r * x
+        return r
+
+    def contribution(i, g, ans, a, scale):
+        r = scale * g
+        for j, x in enumerate(a):
+            if j != i:
+                r = r * x
+        full = scale
+        for x in a:
+            full = full * x
+        return r + (ans - full) * g          # the rule really receives the primitive's output: otherwise this is not zero
+
+    def missing(i):
+        raise NotImplementedError("no rule for argument %d" % i)
+    vapi = variant % 3
+    if vapi == 0:
+        nums = [i for i in range(n) if table[i] != "missing"]
+        rules = [None if table[i] == "zero" else
+                 (lambda ans, *a, _i=i, scale=1.0: lambda g: contribution(_i, g, ans, a, scale)) for i in nums]
+        if nums == list(range(len(nums))) and variant % 2 == 0:
+            defvjp(user, *rules)
+        else:
+            defvjp(user, *rules, argnums=nums)
+    elif vapi == 1:
+        def maker(argnum, ans, a, kwargs):
+            if table[argnum] == "missing":
+                missing(argnum)
+            if table[argnum] == "zero":
+                return lambda g: vspace(a[argnum]).zeros()
+            return lambda g: contribution(argnum, g, ans, a, kwargs.get("scale", 1.0))
+        defvjp_argnum(user, maker)
+    else:
+        def maker(argnums, ans, a, kwargs):
+            for i in argnums:
+                if table[i] == "missing":
+                    missing(i)
+            return lambda g: tuple(vspace(a[i]).zeros() if table[i] == "zero" else contribution(i, g, ans, a, kwargs.get("scale", 1.0))
+                                   for i in argnums)
+        defvjp_argnums(user, maker)
+    japi = (variant // 3) % 4
+    if japi >= 2 and any(t != "rule" for t in table):
+        japi -= 2
+    if japi == 0:
+        nums = [i for i in range(n) if table[i] != "missing"]
+        rules = [None if table[i] == "zero" else
+                 (lambda g, ans, *a, _i=i, scale=1.0: contribution(_i, g, ans, a, scale)) for i in nums]
+        defjvp(user, *rules, argnums=nums)
+    elif japi == 1:
+        def jmaker(argnum, g, ans, a, kwargs):
+            if table[argnum] == "missing":
+                missing(argnum)
+            if table[argnum] == "zero":
+                return vspace(ans).zeros()
+            return contribution(argnum, g, ans, a, kwargs.get("scale", 1.0))
+        defjvp_argnum(user, jmaker)
+    elif japi == 2:
+        def_linear(user)                     # multilinear: linear in each argument separately
+    else:
+        defjvp(user, *["same"] * n)
+    return user
+
+
 class Ctx:
     def __init__(self, prog, variant, sched=None, name=None):
+        self.user = make_user(prog["utable"], variant) if prog.get("utable") else None
         self.prog = prog
         self.bodies = prog["bodies"]
         self.variant = variant
@@ -90,6 +165,9 @@ def prim(ctx, p, a):
         return nd_prim(a[0]) if v % 3 != 2 else anp.floor(a[0])
     if p == "bomb":
         return bomb(a[0])
+    if p == "user":
+        sc = ctx.prog.get("uscale", 1)
+        return ctx.user(*a) if sc == 1 else ctx.user(*a, scale=float(sc))
     raise ValueError(p)
 
 
@@ -112,6 +190,8 @@ def run_body(ctx, b, regs0, link):
                 else:
                     vjp, _v = make_vjp(f)(at)
                     r = vjp(seed)
+                    if (ctx.variant // 3) % 2 == 1:
+                        r = vjp(seed)     # a VJP function may be applied again: the second application is the one that is used
             else:
                 _v, r = make_jvp(f)(at)(seed)
             fr.regs.append(r)
@@ -123,6 +203,9 @@ def run_body(ctx, b, regs0, link):
             fr.regs.append(v)
         elif op == "call":
             fr.regs.append(run_body(ctx, ins["b"], [], fr))
+        elif op == "ckpt":
+            args = [val(fr, r) for r in ins["a"]]
+            fr.regs.append(checkpoint(lambda *ys, ins=ins, fr=fr: run_body(ctx, ins["b"], list(ys), fr))(*args))
         elif op == "if":
             c = val(fr, ins["c"])
             fr.regs.append(run_body(ctx, ins["bt"] if c > 0 else ins["bf"], [], fr))
@@ -153,6 +236,10 @@ def run_thread(ctx, th):
         return to_obs(v)
     except (UserFault, UserWarning):
         return {"k": "exc"}
+    except (NotImplementedError, KeyError) as ex:
+        if "missing" in (ctx.prog.get("utable") or []):     # a request without a registered rule must raise (any exception type)
+            return {"k": "exc"}
+        return {"k": "error", "type": type(ex).__name__, "msg": str(ex)[:200]}
     except Exception as ex:     # noqa
         return {"k": "error", "type": type(ex).__name__, "msg": str(ex)[:200]}
 
